@@ -974,6 +974,29 @@ def install_datetime(w):
 
     w.reg(DT.__dict__["utcfromtimestamp"], dt_utcfromtimestamp, "datetime.utcfromtimestamp")
 
+    def dt_strptime(ex, st, args, kw, line):
+        """only strptime(f"{year}-{ordinal}", "%Y-%j") with unpadded decimal ints.  CPython's _strptime: %Y is exactly
+        four digits (so 1000 <= year <= 9999, anything else fails to match), %j is 1..366 without padding, and the
+        result is date(year, 1, 1) + (j - 1) days (j = 366 of a common year rolls into the next year; past 9999 it is
+        a ValueError from fromordinal)"""
+        from .world import SymStr
+
+        cls, text, fmt = args
+        if fmt != "%Y-%j" or not isinstance(text, SymStr) or len(text.parts) != 3 or text.parts[1] != "-":
+            raise Unsupported(f"strptime form at line {line}")
+        if any(p[0] != "fmt" or p[2] != "" for p in (text.parts[0], text.parts[2])):
+            raise Unsupported(f"strptime of a padded field at line {line}")
+        y, doy = text.parts[0][1], text.parts[2][1]
+        o = sym.add(spec.dby(y), doy)
+        ok = sym.And(sym.between(1000, y, 9999), sym.between(1, doy, 366), sym.le(o, spec.MAXORD))
+        if not raise_if(ex, st, sym.Not(ok), ValueError, line, "strptime"):
+            return
+        r, c = fresh_datetime(ex.fresh, cls, "strp", tzinfo=None, fold=0)
+        st.assume(sym.And(c, sym.eq(spec.date_ord(r), o), sym.eq(spec.tod_us(r.hour, r.minute, r.second, r.microsecond), 0)))
+        yield st, r
+
+    w.reg(DT.__dict__["strptime"], dt_strptime, "datetime.strptime('%Y-%j')")
+
     # ---------------- zoneinfo (the (T, o) model)
     ZI = zoneinfo.ZoneInfo
 
